@@ -185,7 +185,7 @@ def check_selector(case, ctx: Ctx):
             # the same Cooler object serves differently configured joined selectors one after the other
             raw = call("pixels(join=True, convert_enum=False)[r]", lambda: clr.pixels(join=True, convert_enum=False)[key])
             codes = {nm: t for t, nm in enumerate(case["bt"]["names"])}
-            check([int(x) for x in raw["chrom1"]] == [codes[x] for x in full["chrom1"][lo:hi]],
+            check([str(x) for x in raw["chrom1"]] == [str(codes[x]) for x in full["chrom1"][lo:hi]],
                   lambda: f"pixels(join=True, convert_enum=False) after a converting selector on the same object: chrom1 = {raw['chrom1'].tolist()[:5]}")
             again = call("pixels(join=True)[r] again", lambda: clr.pixels(join=True)[key])
             check([str(x) for x in again["chrom1"]] == full["chrom1"][lo:hi] and [str(x) for x in again["chrom2"]] == full["chrom2"][lo:hi],
